@@ -220,6 +220,32 @@ func (m *Model) ruleBACKFILL(r *Results) {
 		return
 	}
 	sc := scans[0]
+	// the row loop ends only when the rows are exhausted (or on an error): a counter or size test
+	// truncates the snapshot, and the live stream then moves the checkpoint past the missing rows
+	if inCycle(sc.Call.Block()) {
+		for _, ct := range controllingConds(sc.Fn, sc.Call.Block()) {
+			if !inCycle(ct.If.Block()) {
+				continue
+			}
+			cd := condOf(ct.If)
+			okCond := false
+			for _, o := range []ssa.Value{cd.X, cd.Y} {
+				if o == nil {
+					continue
+				}
+				v := stripConv(o)
+				if call, ok := v.(*ssa.Call); ok && isMethodCall(call.Common(), "database/sql", "Rows", "Next") {
+					okCond = true
+				}
+				if types.Identical(v.Type(), types.Universe.Lookup("error").Type()) {
+					okCond = true
+				}
+			}
+			if !okCond {
+				r.bad(rule, fnName+" / row loop runs to the end of the rows", m.instrPos(ct.If), "the backfill row loop is also controlled by a condition that is neither rows.Next() nor an error test (a row count or size limit): rows beyond it are silently left out of the snapshot")
+			}
+		}
+	}
 	// the scanned values are queued and delivered later: they must be copies, not views into the
 	// driver's row buffer (sql.RawBytes is only valid until the next Next/Scan/Close)
 	for i, d := range sc.RawDests {
